@@ -112,7 +112,8 @@ pub fn cli_tree(ctx: &mut Ctx) {
         let stdio = !big && rng.gen_bool(0.25);
         let split = (big && case == 1) || (!big && !stdio && rng.gen_bool(0.25));
         let comp: Vec<String> = if big { vec!["--store".into()] } else { comp };
-        let mut cargs: Vec<String> = vec!["--quiet".into()];
+        // the archive on standard output must be nothing but the archive, whatever the verbosity
+        let mut cargs: Vec<String> = vec![if stdio && case % 2 == 1 { "--verbose".into() } else { "--quiet".into() }];
         // split archives also under names that are not `*.pna` (dotted, no extension): the part names must chain
         let arch_name: &str = if split { ["a.pna", "a.pna", "arc.v1.2.tar", "backup", "my.archive.PNA"][rng.gen_range(0..5)] } else { "a.pna" };
         if stdio { cargs.extend(["experimental", "stdio", "--create", "-r"].map(String::from)); } else { cargs.extend(["create", arch_name, "-r"].map(String::from)); }
@@ -133,7 +134,12 @@ pub fn cli_tree(ctx: &mut Ctx) {
         ctx.oracle_eval();
         if cr.crashed() || cr.hung() { ctx.violation("C07", "`pna create` crashed or hung", json!({"case":attrs,"run":cr.brief()})); continue; }
         if !cr.ok() { ctx.violation("C02", "`pna create` failed on a supported tree", json!({"case":attrs,"run":cr.brief()})); continue; }
-        if stdio { std::fs::write(sbx.path("a.pna"), &cr.stdout).unwrap(); }
+        if stdio {
+            std::fs::write(sbx.path("a.pna"), &cr.stdout).unwrap();
+            if let Err(why) = crate::refdec::strict_archive(&cr.stdout, vec![], false) {
+                ctx.violation("C14", "what `pna experimental stdio --create` wrote to standard output is not a well-formed archive", json!({"case":attrs,"why":why,"first_bytes":hexw(&cr.stdout[..cr.stdout.len().min(64)])}));
+            }
+        }
         let mut xargs: Vec<String> = vec!["--quiet".into()];
         let first_part: String = std::fs::read_dir(&sbx.root).unwrap().filter_map(|e| e.ok()).map(|e| e.file_name().to_string_lossy().to_string())
             .find(|n| n.contains(".part1") && !n.contains(".part1") == false && (n.ends_with(".part1") || n.to_lowercase().ends_with(".part1.pna"))).unwrap_or_else(|| "a.part1.pna".into());
